@@ -40,7 +40,7 @@ NearMiss(v) ==
     [] OTHER -> {VNull}
 
 PartSamples(part) ==
-  CASE part.p = "str"   -> {"", "q", "a.b"}
+  CASE part.p = "str"   -> {"", "q", "a.b", "l1\nl2"}      \* ${string} spans line breaks
     [] part.p = "lit"   -> {part.s}
     [] part.p = "bool"  -> {"true", "false", "True"}
     [] part.p = "oneof" -> {part.ss[i] : i \in DOMAIN part.ss} \cup {"zz"}
